@@ -17,6 +17,7 @@ type DocOpt struct {
 	KeyPool   []string
 	NoSpace   bool
 	OnlyASCII bool
+	Nested    bool // root is a container and containers are rarely empty (for path-based properties)
 }
 
 var spaces = []string{"", "", "", " ", "\n", "\t", "\r\n", "  ", " \n\t ", strings.Repeat(" ", 15), strings.Repeat(" ", 31), strings.Repeat(" ", 33), strings.Repeat(" ", 70), strings.Repeat("\n ", 40)}
@@ -64,6 +65,9 @@ func (g *docGen) width() int {
 	if g.o.Wide && rapid.IntRange(0, 14).Draw(g.t, "wide") == 0 {
 		return []int{15, 16, 17, 18, 33, 40}[rapid.IntRange(0, 5).Draw(g.t, "widew")]
 	}
+	if g.o.Nested && rapid.IntRange(0, 7).Draw(g.t, "nonempty") != 0 {
+		return rapid.IntRange(1, mw).Draw(g.t, "width1")
+	}
 	return rapid.IntRange(0, mw).Draw(g.t, "width")
 }
 
@@ -72,7 +76,11 @@ func (g *docGen) value(depth int) {
 	if depth <= 0 {
 		maxKind = 6
 	}
-	switch rapid.IntRange(0, maxKind).Draw(g.t, "vkind") {
+	minKind := 0
+	if g.o.Nested && depth > 0 && rapid.IntRange(0, 2).Draw(g.t, "nest") != 0 {
+		minKind = 7
+	}
+	switch rapid.IntRange(minKind, maxKind).Draw(g.t, "vkind") {
 	case 0:
 		g.b.WriteString("null")
 	case 1:
@@ -126,7 +134,7 @@ func ValidDoc(t *rapid.T, o DocOpt) []byte {
 	}
 	g.ws()
 	// bias the root to containers
-	if rapid.IntRange(0, 3).Draw(t, "rootscalar") == 0 {
+	if !o.Nested && rapid.IntRange(0, 3).Draw(t, "rootscalar") == 0 {
 		g.value(0)
 	} else {
 		g.value(rapid.IntRange(1, d).Draw(t, "depth"))
